@@ -3,6 +3,8 @@
 # prints one line per change. /repo must be clean. (About 1-2 minutes per change.)
 tier=${1:-quick}
 cd /verif || exit 2
+# the batch may end soon after the first violation that is not a known finding (the question here is only "reported or not")
+VERIF_STOP_EARLY=1; export VERIF_STOP_EARLY
 fail=0
 for d in seeded/*/; do
 	id=$(basename $d)
